@@ -235,7 +235,7 @@ impl Property for C07 {
         }
     }
     fn rule(&self) -> &'static str {
-        "cases 0..7 are the finite inventory checks, each run exactly once per run and exhaustive over its finite set (facets static:*): binding tables cover exactly the messages/enums of the parsed .proto files; every enum value (try_from / as_str_name / from_str_name, and rejection of numbers outside the schema); field names in Debug(T::default()) for every message; data/*.ommx opens, decodes, validates and re-encodes to the same content; the FileDescriptorProto embedded in every python/ommx/ommx/v1/*_pb2.py equals the parsed .proto field by field (THIS IS A STATIC COMPARISON OF THE GENERATED PYTHON BINDINGS, NOT AN EXECUTION: no protobuf runtime for Python exists in the sandbox); protoc --descriptor_set_out cross-check of the harness's own .proto parser; and the tree's schema against the schema published at the pinned release, frozen in harness/src/schema_lock.tsv (every published field keeps name, number, type and label, every enum value its number; additions are counted, not judged). Every other case takes one message type (round-robin over all types), generates a random value tree from the parsed schema (depth<=4, interesting scalars), encodes it with the independent hostile encoder (random field order, packed/unpacked/mixed/chunked repeated scalars, explicit defaults, explicit presence, any oneof arm or none, map entries in any order with optional default omission, unknown fields of every wire type incl. groups, split singular messages, overwritten scalars), pushes the bytes through T::decode -> encode_to_vec -> T::decode -> encode_to_vec and decodes both prost encodings with the independent decoder; plus 3 hostile byte strings per case (must give Ok or Err, never a panic or crash). Non-trivial = the normal form of the generated tree has at least one non-default field; distinct = fingerprint of (type name, generated bytes)."
+        "cases 0..7 are the finite inventory checks, each run exactly once per run and exhaustive over its finite set (facets static:*): binding tables cover exactly the messages/enums of the parsed .proto files; every enum value (try_from / as_str_name / from_str_name, and rejection of numbers outside the schema); field names in Debug(T::default()) for every message; data/*.ommx opens, decodes, validates and re-encodes to the same content; the FileDescriptorProto embedded in every python/ommx/ommx/v1/*_pb2.py equals the parsed .proto field by field (THIS IS A STATIC COMPARISON OF THE GENERATED PYTHON BINDINGS, NOT AN EXECUTION: no protobuf runtime for Python exists in the sandbox); protoc --descriptor_set_out cross-check of the harness's own .proto parser; and the tree's schema against the schema published at the pinned release, frozen in harness/src/schema_lock.tsv (every published field keeps name, number, type and label, every enum value its number; additions are counted, not judged). Every other case takes one message type (round-robin over all types), generates a random value tree from the parsed schema (depth<=4, interesting scalars), encodes it with the independent hostile encoder (random field order, packed/unpacked/mixed/chunked repeated scalars, explicit defaults, explicit presence, any oneof arm or none, map entries in any order with optional default omission, unknown fields of every wire type incl. groups, split singular messages, overwritten scalars), pushes the bytes through T::decode -> encode_to_vec -> T::decode -> encode_to_vec and decodes both prost encodings with the independent decoder; plus 3 hostile byte strings per case (must give Ok or Err, never a panic or crash); for Instance, ParametricInstance, State and SampleSet every fourth encoding is also stored as a layer of an OMMX artifact built through ocipkg and read back with the typed getter, which must give what a plain decode of the same bytes gives. Non-trivial = the normal form of the generated tree has at least one non-default field; distinct = fingerprint of (type name, generated bytes)."
     }
     fn assumptions(&self) -> Vec<&'static str> {
         vec![
@@ -264,7 +264,7 @@ impl Property for C07 {
             5 => check_protoc(schema, env, mon),
             6 => check_canonical_defaults(schema, mon),
             7 => check_published_lock(schema, mon),
-            _ => dynamic_case(schema, k, rng, mon),
+            _ => dynamic_case(schema, k, rng, env, mon),
         }
     }
 }
@@ -658,6 +658,77 @@ fn check_protoc(schema: &Schema, env: &Env, mon: &mut Monitor) {
 }
 
 // ---------------------------------------------------------------------------------------------
+// hostile bytes as an artifact layer
+
+fn layer_case(proto: &str, bytes: &[u8], env: &Env, k: u64, mon: &mut Monitor) {
+    use ommx::artifact::Artifact;
+    use ommx::ocipkg::image::{OciArchiveBuilder, OciArtifactBuilder};
+    use ommx::ocipkg::oci_spec::image::MediaType;
+    use ommx::ocipkg::Digest;
+    use prost::Message;
+    use sha2::{Digest as _, Sha256};
+    let media = match proto {
+        "ommx.v1.Instance" => "application/org.ommx.v1.instance",
+        "ommx.v1.ParametricInstance" => "application/org.ommx.v1.parametric-instance",
+        "ommx.v1.State" => "application/org.ommx.v1.solution",
+        "ommx.v1.SampleSet" => "application/org.ommx.v1.sample-set",
+        _ => return,
+    };
+    let _ = std::fs::create_dir_all(&env.scratch);
+    let path = env.scratch.join(format!("c07-layer-{k}.ommx"));
+    let _ = std::fs::remove_file(&path);
+    // building is harness-side work with a third-party crate: a failure here is not a verdict
+    let built = probe(|| -> Result<(), String> {
+        let archive = OciArchiveBuilder::new_unnamed(path.clone()).map_err(|e| format!("{e:#}"))?;
+        let mut b = OciArtifactBuilder::new(archive, MediaType::Other("application/org.ommx.v1.artifact".into())).map_err(|e| format!("{e:#}"))?;
+        b.add_layer(MediaType::Other(media.into()), bytes, std::collections::HashMap::new()).map_err(|e| format!("{e:#}"))?;
+        b.build().map(drop).map_err(|e| format!("{e:#}"))
+    });
+    if !matches!(built, Ok(Ok(()))) {
+        mon.observe("artifact with a hostile layer could not be built through ocipkg (no verdict)");
+        let _ = std::fs::remove_file(&path);
+        return;
+    }
+    let mut hex = String::from("sha256:");
+    for b in Sha256::digest(bytes) {
+        hex.push_str(&format!("{b:02x}"));
+    }
+    // what a plain decode of the same bytes gives, as Debug text (NaN payloads make PartialEq useless)
+    let r = probe(|| -> Result<(String, String), String> {
+        let dg = Digest::new(&hex).map_err(|e| format!("Digest::new: {e:#}"))?;
+        let mut art = Artifact::from_oci_archive(&path).map_err(|e| format!("from_oci_archive: {e:#}"))?;
+        Ok(match proto {
+            "ommx.v1.Instance" => (format!("{:?}", v1::Instance::decode(bytes)), format!("{:?}", art.get_instance(&dg).map(|x| x.0).map_err(|e| format!("{e:#}")))),
+            "ommx.v1.ParametricInstance" => (format!("{:?}", v1::ParametricInstance::decode(bytes)), format!("{:?}", art.get_parametric_instance(&dg).map(|x| x.0).map_err(|e| format!("{e:#}")))),
+            "ommx.v1.State" => (format!("{:?}", v1::State::decode(bytes)), format!("{:?}", art.get_solution(&dg).map(|x| x.0).map_err(|e| format!("{e:#}")))),
+            _ => (format!("{:?}", v1::SampleSet::decode(bytes)), format!("{:?}", art.get_sample_set(&dg).map(|x| x.0).map_err(|e| format!("{e:#}")))),
+        })
+    });
+    let _ = std::fs::remove_file(&path);
+    mon.eval();
+    mon.facet(&format!("hostile-bytes-as-artifact-layer:{}", short(proto)));
+    match r {
+        Err(p) => mon.violation(format!("C07.artifact-layer-panic:{}", short(proto)), format!("reading a layer panicked: {} at {}\nlayer bytes {}", p.message, p.location, wire::hex(bytes))),
+        Ok(Err(e)) => mon.violation(format!("C07.artifact-layer:{}", short(proto)), format!("{e}\nlayer bytes {}", wire::hex(bytes))),
+        Ok(Ok((plain, layer))) => {
+            // maps print in hash order: the two texts are compared as multisets of characters
+            if plain.starts_with("Ok(") && !layer.starts_with("Ok(") {
+                mon.violation(format!("C07.artifact-layer-rejected:{}", short(proto)), format!("decode of the bytes succeeds, the typed getter of the artifact fails: {layer}\nlayer bytes {}", wire::hex(bytes)));
+            } else if plain.starts_with("Ok(") && {
+                let sorted = |t: &str| {
+                    let mut v: Vec<char> = t.chars().collect();
+                    v.sort_unstable();
+                    v
+                };
+                sorted(&plain) != sorted(&layer)
+            } {
+                mon.violation(format!("C07.artifact-layer-content:{}", short(proto)), format!("plain decode: {plain}\nthrough the artifact: {layer}\nlayer bytes {}", wire::hex(bytes)));
+            }
+        }
+    }
+}
+
+// ---------------------------------------------------------------------------------------------
 // dynamic cases
 
 fn hostile_variant(schema: &Schema, proto: &str, valid: &[u8], rng: &mut Rng) -> (&'static str, Vec<u8>) {
@@ -772,7 +843,7 @@ fn hostile_variant(schema: &Schema, proto: &str, valid: &[u8], rng: &mut Rng) ->
     }
 }
 
-fn dynamic_case(schema: &Schema, k: u64, rng: &mut Rng, mon: &mut Monitor) {
+fn dynamic_case(schema: &Schema, k: u64, rng: &mut Rng, env: &Env, mon: &mut Monitor) {
     let e = &MESSAGES[((k - N_STATIC) % MESSAGES.len() as u64) as usize];
     if !schema.messages.contains_key(e.proto) {
         return; // reported by the inventory check
@@ -822,6 +893,12 @@ fn dynamic_case(schema: &Schema, k: u64, rng: &mut Rng, mon: &mut Monitor) {
     let context = |schema: &Schema| format!("bytes sent ({}): {}\ntree sent: {}", bytes.len(), wire::clip(&wire::hex(&bytes), 1500), wire::clip(&wire::render(schema, e.proto, &want), 1500));
 
     mon.eval();
+    // the four message kinds that travel as artifact layers: every fourth time, the very bytes of the
+    // independent encoder (unknown fields, explicit defaults, any field order) are stored as a layer of an
+    // OMMX artifact built through ocipkg and must be read by the typed getter like by a plain decode
+    if (k / MESSAGES.len() as u64) % 4 == 0 {
+        layer_case(e.proto, &bytes, env, k, mon);
+    }
     match (e.run)(&bytes) {
         Run::DecodePanic(p) => mon.violation(format!("C07.decode-panic:{sname}"), format!("{}::decode panicked on a valid encoding: {} at {}\n{}", e.rust, p.message, p.location, context(schema))),
         Run::Rejected(err) => mon.violation(
